@@ -187,3 +187,301 @@ def instance(prefix, overrides=None, returned=True):
     for _, t in RE_ENSURES:
         hyps.append(pe.boolean(t))
     return ns, hyps + pe.facts, res, pe
+
+
+# ================================================================================================
+# Logix.request (whole method) — one contract per Logix tag service
+# ================================================================================================
+from pyvc.vals import RefV, SeqV, OpaqueV, ConstV, USort, IntSeq, BoolV
+from . import attribute_common as AC
+
+SERVICES = {'read_tag': 0x4c, 'read_frag': 0x52, 'write_tag': 0x4d, 'write_frag': 0x53}
+
+
+def request_data(ctx):
+    """builds the request record `data` for service context `ctx` from the ghost inputs
+    _g_elements/_g_off/_g_max_size (OptInt: None == field absent), _g_reqtype, _g_wdata"""
+    def build(eng, name, st):
+        st = st.clone()
+        rid, sid = eng.new_id(), eng.new_id()
+
+        def opt(nm):
+            isn = z3.Bool(nm + '.is_none')
+            eng.init_vals[nm] = UnionV([(isn, NONE), (z3.Not(isn), IntV(z3.Int(nm)))])
+            return (z3.Not(isn), IntV(z3.Int(nm)))
+        sub = {'elements': opt('_g_elements')}
+        if ctx in ('read_frag', 'write_frag'):
+            sub['offset'] = opt('_g_off')
+        else:
+            eng.init_vals['_g_off'] = NONE
+        if ctx.startswith('read'):
+            sub['max_size'] = opt('_g_max_size') if ctx == 'read_frag' else None
+            if sub['max_size'] is None:
+                del sub['max_size']
+                eng.init_vals['_g_max_size'] = NONE
+            eng.init_vals['_g_wdata'] = SeqV(z3.Empty(IntSeq), 'list')
+        else:
+            eng.init_vals['_g_max_size'] = NONE
+            wd = SeqV(z3.Const('_g_wdata', IntSeq), 'list')
+            eng.init_vals['_g_wdata'] = wd
+            sub['data'] = (z3.BoolVal(True), wd)
+            rt = IntV(z3.Int('_g_reqtype'))
+            eng.init_vals['_g_reqtype'] = rt
+            sub['type'] = (z3.BoolVal(True), rt)
+        for k, pv in sub.items():
+            st.heap[(sid, k)] = pv
+        st.heap[(sid, '__closed__')] = True
+        st.heap[(sid, '__keys__')] = tuple(sub.keys())
+        has_service = z3.Bool('_g_service_given')
+        top = {'service': (has_service, IntV(SERVICES[ctx])),
+               'path': (z3.BoolVal(True), OpaqueV(z3.Const('_g_path', USort), 'path')),
+               ctx: (z3.BoolVal(True), RefV(sid, 'rec'))}
+        for k, pv in top.items():
+            st.heap[(rid, k)] = pv
+        st.heap[(rid, '__closed__')] = True
+        st.heap[(rid, '__keys__')] = tuple(top.keys())
+        eng.init_vals['_g_service'] = IntV(SERVICES[ctx] | 0x80)
+        eng.tracked_refs.add(rid)
+        return RefV(rid, 'rec'), st
+    return build
+
+
+def produce_model(eng, st):
+    return SeqV(z3.Const('_g_produced', IntSeq), 'bytes')
+
+
+REQ_DEFS = dict(RE_DEFS)
+REQ_DEFS.update(
+    _g_cnt="len(old(_g_attribute.default))",
+    _g_ndata="len(_g_wdata)",
+    _g_MAX_BYTES="self.MAX_BYTES",
+    VALS0="old(_g_attribute.default)",
+    VALS="_g_attribute.default",
+    FOUND="_g_path_ok and _g_found and _g_clid == 0x02 and _g_inid == self.instance_id",
+    BEG="_g_idx + OFF // _g_siz",
+    UNCHANGED="_g_attribute.default == old(_g_attribute.default)",
+    ERR="_g_attribute.error",
+)
+
+
+def resolve_spec():
+    return Spec('resolve', ("server/enip/device.py", "resolve"), params={'path': 'Opaque', 'attribute': 'Int'},
+                raises={'AssertionError': 'not _g_path_ok'}, returns=('Tuple', ['Int', 'Int', 'Int']),
+                ensures=['result[0] == _g_clid and result[1] == _g_inid'], hints=dict(defaults=dict(attribute=False)),
+                note='ASSUMED callee contract: resolves (class, instance, attribute) or raises; symbol table not modelled')
+
+
+def re_callee():
+    sp = reply_elements_spec()
+    sp.hints = dict(sp.hints)
+    sp.hints['formals'] = ['self', 'attribute', 'data', 'context']
+    sp.hints['bind'] = {
+        '_g_service': 'data.service',
+        '_g_idx': 'resolve_element(data.path)[0]',
+        '_g_off': "data[context].get('offset')",
+        '_g_max_size': "data[context].get('max_size')",
+        '_g_elements': "data[context].get('elements')",
+        '_g_cnt': 'len(attribute)',
+        '_g_siz': 'attribute.parser.struct_calcsize',
+        '_g_ndata': "len(data[context].data) if 'data' in data[context] else 0",
+        '_g_MAX_BYTES': 'self.MAX_BYTES',
+    }
+    sp.returns = ('Tuple', ['Int', 'Int', 'Int', 'Int', 'Int'])
+    return sp
+
+
+def attribute_callees():
+    out = {}
+    for sp in AC.specs('vector'):
+        if sp.name.startswith('Attribute.__getitem__[vector][slice]'):
+            sp.hints = dict(sp.hints, unpack=AC.unpack_slice)
+            out['Attribute.__getitem__'] = sp
+        if sp.name.startswith('Attribute.__setitem__[vector][slice]'):
+            sp.hints = dict(sp.hints, unpack=AC.unpack_slice)
+            out['Attribute.__setitem__'] = sp
+    return out
+
+
+def request_spec(ctx, ensures, name=None, refuses=(), extra_requires='True'):
+    read = ctx.startswith('read')
+    callees = {'resolve': resolve_spec(), 'Logix.reply_elements': re_callee()}
+    callees.update(attribute_callees())
+    return Spec(
+        name or 'Logix.request[%s]' % ctx, ("server/enip/logix.py", "Logix.request"),
+        params={'data': request_data(ctx),
+                '_g_attribute': ('Obj', 'Attribute', AC.VEC_FIELDS),
+                '_g_found': 'Bool', '_g_path_ok': 'Bool', '_g_idx': 'Int', '_g_siz': 'Int', '_g_tagtype': 'Int',
+                '_g_clid': 'Int', '_g_inid': 'Int'},
+        fields={'MAX_BYTES': 'Int', 'instance_id': 'Int'},
+        env={
+            "self.route(data, fail=Message_Router.ROUTE_FALSE)": "None",
+            "resolve_element(data.path)": "(_g_idx,)",
+            "attribute.parser.struct_calcsize": "_g_siz",
+            "attribute.parser.tag_type": "_g_tagtype",
+            "lookup(clid, inid, atid)": "_g_attribute if _g_found else None",
+            "self.produce(data)": produce_model,
+        },
+        requires=("_g_siz >= 1 and _g_idx >= 0 and self.MAX_BYTES >= 1 and 0 < _g_tagtype < 0xd0 "
+                  "and (_g_off is None or _g_off >= 0) and (_g_max_size is None or _g_max_size >= 0) and " + extra_requires),
+        defs=dict(REQ_DEFS),
+        ensures=ensures, refuses=list(refuses),
+        raises={},
+        modifies=['_g_attribute.default', 'data.service', 'data.status', 'data.status_ext', 'data.input'],
+        callees=callees, inline=['__len__'], replay=replay_request(ctx),
+        hints=dict(defaults={}),
+        note='whole method for one service; env: route() -> None (request is for this object), lookup() -> the tag or None, '
+             'produce() -> opaque bytes; resolve() by assumed contract; reply_elements and Attribute slices by their proved contracts')
+
+
+# ---- what "a data type the tag can hold" means (from the CIP type ranges, not from the code) ----
+INT_RANGE = {0xc1: (0, 1), 0xc2: (-2 ** 7, 2 ** 7 - 1), 0xc3: (-2 ** 15, 2 ** 15 - 1), 0xc4: (-2 ** 31, 2 ** 31 - 1),
+             0xc5: (-2 ** 63, 2 ** 63 - 1), 0xc6: (0, 2 ** 8 - 1), 0xc7: (0, 2 ** 16 - 1), 0xc8: (0, 2 ** 32 - 1),
+             0xc9: (0, 2 ** 64 - 1)}
+TYPE_NAME = {0xc1: 'BOOL', 0xc2: 'SINT', 0xc3: 'INT', 0xc4: 'DINT', 0xc5: 'LINT', 0xc6: 'USINT', 0xc7: 'UINT',
+             0xc8: 'UDINT', 0xc9: 'ULINT', 0xca: 'REAL', 0xcb: 'LREAL'}
+
+
+def holdable(tag, req):
+    """every value of request type `req` is representable in tag type `tag` (integer types)"""
+    if tag in INT_RANGE and req in INT_RANGE:
+        return INT_RANGE[tag][0] <= INT_RANGE[req][0] and INT_RANGE[req][1] <= INT_RANGE[tag][1]
+    if tag in (0xca, 0xcb):
+        return req in INT_RANGE or req == tag or (tag == 0xcb and req == 0xca)
+    return tag == req
+
+
+HOLDABLE_TEXT = ' or '.join('(_g_tagtype == %d and _g_reqtype in %r)' % (t, tuple(r for r in TYPE_NAME if holdable(t, r)))
+                            for t in TYPE_NAME)
+INT_TYPES_TEXT = repr(tuple(INT_RANGE))
+
+COMMON_ENSURES = [
+    ('reply-bit: the reply service is the request service | 0x80', 'data.service == _g_service'),
+    ('returns-true', 'result == True'),
+    ('one-reply-payload-produced', "has(data, 'input')"),
+    ('unknown-tag-or-attribute: status 0x05', 'implies(not FOUND, data.status == 0x05)'),
+]
+RANGE_BAD = "(not in_range or BEG >= _g_cnt)"
+EXT = "data.status_ext.data[0]"
+END_READ = "min(_g_idx + ELM, BEG + max((OFF % _g_siz + BUDGET + _g_siz - 1) // _g_siz, 1))"
+
+READ_ENSURES = COMMON_ENSURES + [
+    ('a-read-never-changes-the-tag', 'UNCHANGED'),
+    ('range-error: 0xFF/0x2105', "implies(FOUND and %s, data.status == 0xFF and %s == 0x2105 and has(data, 'status_ext'))" % (RANGE_BAD, EXT)),
+    ('in-range-read-succeeds', 'implies(FOUND and ERR == 0 and in_range and OFF // _g_siz < ELM and OFF % _g_siz == 0, data.status in (0x00, 0x06))'),
+    ('success-only-in-range', 'implies(data.status in (0x00, 0x06), FOUND and in_range)'),
+    ('success-returns-exactly-the-addressed-elements',
+     'implies(data.status in (0x00, 0x06), data.CTX.data == VALS0[BEG:%s] and data.CTX.type == _g_tagtype)' % END_READ),
+    ('status-0x00-iff-the-last-requested-element-was-sent',
+     'implies(data.status in (0x00, 0x06), (data.status == 0x00) == (%s == _g_idx + ELM))' % END_READ),
+    ('forced-error-code-is-reported', 'implies(FOUND and ERR != 0 and in_range and OFF // _g_siz < ELM and OFF % _g_siz == 0, data.status == ERR)'),
+]
+
+WRITE_ENSURES = COMMON_ENSURES + [
+    ('refused-writes-leave-the-tag-unchanged', 'implies(data.status != 0x00, UNCHANGED)'),
+    ('unknown-tag: unchanged', 'implies(not FOUND, UNCHANGED)'),
+    ('type-mismatch: 0xFF/0x2107 and unchanged',
+     "implies(FOUND and not (%s), data.status == 0xFF and %s == 0x2107 and has(data, 'status_ext') and UNCHANGED)" % (HOLDABLE_TEXT, EXT)),
+    ('range-error: 0xFF', "implies(FOUND and (%s or BEG + _g_ndata > _g_cnt), data.status == 0xFF and %s in (0x2105, 0x2107) and UNCHANGED)" % (RANGE_BAD, EXT)),
+    ('range-error-with-matching-type: 0xFF/0x2105',
+     "implies(FOUND and _g_reqtype == _g_tagtype and (%s or BEG + _g_ndata > _g_cnt), data.status == 0xFF and %s == 0x2105)" % (RANGE_BAD, EXT)),
+    ('in-range-write-of-the-tag-type-succeeds',
+     'implies(FOUND and _g_reqtype == _g_tagtype and in_range and OFF // _g_siz < ELM and 1 <= _g_ndata and OFF // _g_siz + _g_ndata <= ELM, data.status == 0x00)'),
+    ('success-stores-exactly-the-values-at-the-addressed-elements',
+     'implies(data.status == 0x00, FOUND and in_range and VALS == VALS0[:BEG] + _g_wdata + VALS0[BEG + _g_ndata:] and len(VALS) == _g_cnt)'),
+    ('status-is-0x00-0x05-or-0xFF', 'data.status in (0x00, 0x05, 0xFF)'),
+]
+
+
+def request_specs(which=('read_tag', 'read_frag', 'write_tag', 'write_frag')):
+    out = []
+    for ctx in which:
+        ens = READ_ENSURES if ctx.startswith('read') else WRITE_ENSURES
+        ens = [(l, t.replace('CTX', ctx)) for l, t in ens]
+        extra = "_g_attribute.error >= 0 and _g_attribute.error != 6"
+        if ctx.startswith('write'):
+            extra = "_g_attribute.error == 0 and _g_tagtype in %s" % (tuple(TYPE_NAME),)
+        out.append(request_spec(ctx, ens, extra_requires=extra))
+    return out
+
+
+# ---- replay of counter-models of Logix.request obligations on the real simulator objects ----------
+SIZ_TYPE = {1: ('SINT', 0xc2), 2: ('INT', 0xc3), 4: ('DINT', 0xc4), 8: ('LINT', 0xc5)}
+
+
+def replay_request(ctx):
+    def replay(model, obligation):
+        from . import sim
+        if model is None:
+            return dict(confirmed=False)
+        m = model
+        tagtype = int(m.get('_g_tagtype', 0xc3))
+        tname = TYPE_NAME.get(tagtype)
+        if tname is None or tname in ('REAL', 'LREAL'):
+            tname = SIZ_TYPE.get(int(m.get('_g_siz', 2)), ('INT', 0xc3))[0]
+        code = dict((n, c) for c, n in TYPE_NAME.items())
+        lo, hi = INT_RANGE[code[tname]]
+        vals0 = [min(max(int(x), lo), hi) for x in (m.get('_g_attribute.default') or []) if not isinstance(x, str)]
+        if len(vals0) > 2000:
+            return dict(confirmed=False, note='model too large to replay')
+        found = bool(m.get('_g_found', True)) and bool(m.get('_g_path_ok', True))
+        lx = sim.fresh({'T': (tname, max(len(vals0), 1))}, max_bytes=max(int(m.get('self.MAX_BYTES', 488)), 1))
+        if vals0:
+            sim.write_tag(lx, 'T', 0, len(vals0), code[tname], vals0)
+        else:
+            vals0 = sim.tag_values('T')
+        name = 'T' if found else 'NoSuchTag'
+        idx = max(int(m.get('_g_idx', 0)), 0)
+        elm = None if m.get('_g_elements.is_none', False) else int(m.get('_g_elements', 1))
+        off = None if m.get('_g_off.is_none', True) else int(m.get('_g_off', 0))
+        wdata = [int(x) for x in (m.get('_g_wdata') or []) if not isinstance(x, str)]
+        reqtype = int(m.get('_g_reqtype', code[tname]))
+        sub = {}
+        if elm is not None:
+            sub['elements'] = elm
+        if ctx.endswith('frag') and off is not None:
+            sub['offset'] = off
+        if ctx.startswith('write'):
+            sub['type'] = reqtype
+            sub['data'] = wdata
+        before = list(sim.tag_values('T'))
+        d = sim.request(lx, service=SERVICES[ctx], path=sim.sympath(name, idx), **{ctx: sub})
+        st, ext = sim.status_of(d)
+        after = list(sim.tag_values('T'))
+        n = len(before)
+        siz = {'SINT': 1, 'USINT': 1, 'BOOL': 1, 'INT': 2, 'UINT': 2, 'DINT': 4, 'UDINT': 4, 'LINT': 8, 'ULINT': 8}[tname]
+        ELM = elm if elm is not None else n - idx
+        OFF = (off or 0) if ctx.endswith('frag') else 0
+        adv = OFF // siz
+        in_range = ELM >= 1 and idx + ELM <= n
+        problems = []
+        if d.service != (SERVICES[ctx] | 0x80):
+            problems.append('reply service is not request | 0x80')
+        if not found and st != 0x05:
+            problems.append('unknown tag must give status 0x05')
+        if ctx.startswith('read'):
+            if after != before:
+                problems.append('a read changed the tag')
+            if found and (not in_range or idx + adv >= n) and not (st == 0xFF and ext == [0x2105]):
+                problems.append('range error must give 0xFF/0x2105')
+            if st in (0, 6):
+                got = list(d[ctx].data)
+                if not (found and in_range) or got != before[idx + adv: idx + adv + len(got)] or not got or d[ctx].type != code[tname]:
+                    problems.append('successful read must return exactly the addressed elements and the tag type')
+                if (st == 0) != (idx + adv + len(got) == idx + ELM):
+                    problems.append('status 0x00 exactly when the last requested element was sent')
+        else:
+            if st != 0 and after != before:
+                problems.append('a refused write changed the tag')
+            if found and not holdable(code[tname], reqtype) and not (st == 0xFF and ext == [0x2107]):
+                problems.append('a type the tag cannot hold must give 0xFF/0x2107')
+            if found and reqtype == code[tname] and (not in_range or idx + adv + len(wdata) > n) and not (st == 0xFF and ext == [0x2105]):
+                problems.append('range error must give 0xFF/0x2105')
+            if st == 0 and not (found and in_range and after == before[:idx + adv] + wdata + before[idx + adv + len(wdata):] and len(after) == n):
+                problems.append('a successful write must store exactly the values at the addressed elements')
+            if st not in (0, 5, 0xFF):
+                problems.append('status must be 0x00, 0x05 or 0xFF')
+        return dict(confirmed=bool(problems), function='cpppo.server.enip.logix.Logix.request',
+                    input=dict(service=ctx, tag_type=tname, tag_values=before, found=found, index=idx, request=sub),
+                    observed='status %r ext %r tag %r reply %r' % (st, ext, after, dict(d.get(ctx, {})) if hasattr(d.get(ctx, {}), 'items') else None),
+                    required='; '.join(problems) or 'property holds on this input')
+    return replay
